@@ -22,7 +22,7 @@ SPEC_FUNCS = {
     "log_pos", "yielded", "exists_event", "all_events", "isinstance_",
     "truthy", "mem", "count_held", "seq", "select", "glob0", "obj", "strip",
     "split", "join", "cfg", "reaches", "no_event_between", "log_len", "the",
-    "split_ws", "as_", "tail", "has_loop", "ordered", "count_events", "pre",
+    "split_ws", "as_", "tail", "has_loop", "ordered", "count_events", "pre", "app_call", "dynattr",
 }
 
 
@@ -308,6 +308,24 @@ class SpecMixin:
             f = val(a[0])
             args = [val(x) for x in a[1:]]
             return VObj(_app(to_obj_term(f), to_obj_term(VTuple(args))))
+        if name == "app_call":
+            # app_call(f, star_args, star_kwargs): the result of f(*star_args, **star_kwargs) as call_user encodes it
+            from .engine import _app
+            from .calls import Star
+            f = val(a[0])
+            sa = val(a[1])
+            kw = val(a[2]) if len(a) > 2 else None
+            args_ = self.expand_star(sa, st) if isinstance(sa, (VTuple, VLoc)) else [Star(sa)]
+            kwargs_ = {}
+            if kw is not None:
+                if isinstance(kw, VLoc):
+                    kwargs_ = dict(st.loc(kw).data)
+                else:
+                    kwargs_ = {"**": kw}
+            return VObj(_app(to_obj_term(f), self.user_arg_term(args_, kwargs_)))
+        if name == "dynattr":
+            f_ = z3.Function("obj_getattr_dyn", ty.IntS, ty.StrS, ty.IntS)
+            return VObj(f_(to_obj_term(val(a[0])), val(a[1]).t))
         if name == "attr":
             from .engine import _attr
             return VObj(_attr(to_obj_term(val(a[0])), z3.IntVal(const_id(f"attr:{cstr(a[1])}"))))
